@@ -21,14 +21,14 @@ STRICT = {"exp", "sin", "cos", "tan", "cot", "sec", "csc", "sinh", "cosh", "tanh
 
 
 def _leaf(d=None, a=False, num=None):
-    tok = {"op": "leaf", "n": 0, "d": d or ZERO_DIM, "a": a, "hn": num is not None, "v": [0, 1]}
+    tok = {"op": "leaf", "n": 0, "d": d or ZERO_DIM, "a": a, "hn": num is not None, "v": [0, 1], "lt": 0}
     if num is not None:
         tok["v"] = [num.numerator, num.denominator]
     return tok
 
 
 def _op(op, n, d=None):
-    return {"op": op, "n": n, "d": d or ZERO_DIM, "a": False, "hn": False, "v": [0, 1]}
+    return {"op": op, "n": n, "d": d or ZERO_DIM, "a": False, "hn": False, "v": [0, 1], "lt": 0}
 
 
 def _number(e):
@@ -76,6 +76,7 @@ def relationals(cond):
 class Compiler:
     def __init__(self):
         self.side = []      # extra relational traces found inside (Piecewise conditions)
+        self.names = {}     # dimensionless declared symbols -> token number (possible symbolic exponents)
 
     def compile(self, e, out):  # pylint: disable=too-many-branches,too-many-statements,too-many-return-statements
         import sympy as sp
@@ -94,7 +95,10 @@ class Compiler:
             out.append(_op("keep", 1))
             return
         if isinstance(e, (SymQuantity,)) or (isinstance(e, DimensionSymbol) and not isinstance(e, type)):
-            out.append(_declared(e))
+            tok = _declared(e)
+            if isinstance(e, sp.Symbol) and not tok["a"] and tok["d"] == ZERO_DIM:
+                tok["lt"] = self.names.setdefault(e, len(self.names) + 1)
+            out.append(tok)
             return
         if isinstance(e, Indexed):
             base = e.base
@@ -176,6 +180,12 @@ class Compiler:
             out.append(_op("same", len(e.args)))
             return
         name = type(e).__name__
+        if name == "Laplacian":
+            # second derivatives with respect to the (length) coordinates of the system: f / length**2
+            self.compile(e.args[0], out)
+            out.append(_leaf(d=[[2, 1]] + ZERO_DIM[1:]))
+            out.append(_op("deriv", 2))
+            return
         if name in ("IndexedSum", "Sum"):
             self.compile(e.args[0], out)
             out.append(_op("keep", 1))
